@@ -35,6 +35,16 @@ class Ctx:
         self.t0 = time.time()
         self.scratch = tempfile.mkdtemp(prefix='verif-%s-' % pid)
         atexit.register(lambda: shutil.rmtree(self.scratch, ignore_errors=True))
+        import signal
+
+        def _term(signum, frame):
+            # kill children (TLC, drivers) and leave through atexit so the scratch space is removed
+            try:
+                subprocess.run(['pkill', '-TERM', '-P', str(os.getpid())])
+            finally:
+                sys.exit(2)
+        signal.signal(signal.SIGTERM, _term)
+        signal.signal(signal.SIGINT, _term)
         self.violations = []      # dicts: {sig, what, replay}
         self.known_seen = {}      # id -> count
         self.divergences = 0
